@@ -13,6 +13,7 @@ from gen import rand_tt, rand_modes, rand_ranks, dense_of_cores, exact_equal, in
 from util import J
 
 LEVEL = "proof"
+RK_MAX = 12
 RULE = ("random programs of depth 1..3 built from {+, -, *, unary -, scalar *, scalar +, A@x, kron, cat, pad, mprod, sum over modes, slicing} with a scalar head in "
         "{sum, dot, norm², entry (apply_mask / integer slicing), bilinear_form, sums/products of those}; operands of order 1..3 (modes<=3, ranks<=2, integer cores); "
         "every choice of tracked operand (tensor or operator) and tracked core; float64. Non-trivial: the gradient is not identically zero.")
@@ -23,8 +24,8 @@ ASSUMPTIONS = ["torch.autograd returns the derivative of the graph it recorded (
 
 class Node:
     """expression node with three interpretations: model tokens, torchtt evaluation, dense evaluation"""
-    def __init__(self, toks, tt_fn, dn_fn, N):
-        self.toks, self.tt_fn, self.dn_fn, self.N = toks, tt_fn, dn_fn, N
+    def __init__(self, toks, tt_fn, dn_fn, N, rk=2):
+        self.toks, self.tt_fn, self.dn_fn, self.N, self.rk = toks, tt_fn, dn_fn, N, rk      # rk: bound on the TT ranks of the value
 
 
 def gen_te(rng, depth, ops, N, allow_shape_change=True):
@@ -37,18 +38,21 @@ def gen_te(rng, depth, ops, N, allow_shape_change=True):
     if k in ("add", "sub", "mul"):
         a = gen_te(rng, depth - 1, ops, N); b = gen_te(rng, depth - 1, ops, N)
         f = {"add": lambda u, v: u + v, "sub": lambda u, v: u - v, "mul": lambda u, v: u * v}[k]
+        rk = a.rk * b.rk if k == "mul" else a.rk + b.rk
+        if rk > RK_MAX:
+            return a          # keep the ranks (and with them the cost of the exact model evaluation) bounded
         return Node([k] + a.toks + b.toks, lambda env, a=a, b=b, f=f: f(a.tt_fn(env), b.tt_fn(env)),
-                    lambda den, a=a, b=b, f=f: f(a.dn_fn(den), b.dn_fn(den)), list(N))
+                    lambda den, a=a, b=b, f=f: f(a.dn_fn(den), b.dn_fn(den)), list(N), rk)
     a = gen_te(rng, depth - 1, ops, N)
     if k == "neg":
-        return Node(["neg"] + a.toks, lambda env, a=a: -a.tt_fn(env), lambda den, a=a: -a.dn_fn(den), list(N))
+        return Node(["neg"] + a.toks, lambda env, a=a: -a.tt_fn(env), lambda den, a=a: -a.dn_fn(den), list(N), a.rk)
     if k == "smul":
         s = rng.choice([2, -1, 3, 0.5])
         return Node(["smul"] + a.toks + [num_str(float(s))], lambda env, a=a, s=s: a.tt_fn(env) * s if rng.random() < 2 else None,
-                    lambda den, a=a, s=s: a.dn_fn(den) * s, list(N))
+                    lambda den, a=a, s=s: a.dn_fn(den) * s, list(N), a.rk)
     if k == "adds":
         s = rng.choice([1, -2, 0.5])
-        return Node(["adds"] + a.toks + [num_str(float(s))], lambda env, a=a, s=s: a.tt_fn(env) + s, lambda den, a=a, s=s: a.dn_fn(den) + s, list(N))
+        return Node(["adds"] + a.toks + [num_str(float(s))], lambda env, a=a, s=s: a.tt_fn(env) + s, lambda den, a=a, s=s: a.dn_fn(den) + s, list(N), a.rk + 1)
     if k == "mv" and nM:
         A = rng.randrange(nM)
         d = len(N)
@@ -56,7 +60,9 @@ def gen_te(rng, depth, ops, N, allow_shape_change=True):
         def dn(den, a=a, A=A, d=d):
             n = int(np.prod(N))
             return (den["M"][A].reshape(n, n) @ a.dn_fn(den).reshape(-1)).reshape(N)
-        return Node(["mv", A] + a.toks, lambda env, a=a, A=A: env["M"][A] @ a.tt_fn(env), dn, list(N))
+        if a.rk * 2 > RK_MAX or "mv" in a.toks:
+            return a          # nested operator products make the closure-based exact evaluation of the model explode
+        return Node(["mv", A] + a.toks, lambda env, a=a, A=A: env["M"][A] @ a.tt_fn(env), dn, list(N), a.rk * 2)
     return a
 
 
@@ -66,6 +72,8 @@ def wrap_shape_change(rng, node):
     d = len(N)
     k = rng.choice(["none", "none", "kron", "cat", "pad", "mprod", "sumsel", "getitem"])
     a = node
+    if k == "kron" and ("mv" in a.toks or len(a.toks) > 8 or (d >= 3 and a.toks[0] != "var")):
+        return a          # the model's sweeps are closure based: their cost is exponential in the order, so order-6 results only from plain operands
     if k == "kron":
         return Node(["kron"] + a.toks + a.toks, lambda env, a=a: a.tt_fn(env) ** a.tt_fn(env),
                     lambda den, a=a: tn.tensordot(a.dn_fn(den), a.dn_fn(den), dims=0), N + N)
@@ -125,6 +133,10 @@ def gen_se(rng, depth, ops, N):
         return Node([k] + x.toks + y.toks, lambda env, x=x, y=y, f=f: f(x.tt_fn(env), y.tt_fn(env)), lambda den, x=x, y=y, f=f: f(x.dn_fn(den), y.dn_fn(den)), None)
     if k == "bil" and ops["nM"]:
         a = gen_te(rng, max(depth - 1, 0), ops, N); b = gen_te(rng, max(depth - 1, 0), ops, N)
+        if "mv" in a.toks or len(N) >= 3:
+            a = gen_te(rng, 0, ops, N)
+        if "mv" in b.toks or len(N) >= 3:
+            b = gen_te(rng, 0, ops, N)
         A = rng.randrange(ops["nM"])
 
         def dn(den, a=a, b=b, A=A):
